@@ -171,6 +171,7 @@ pub struct Conn {
 }
 
 #[derive(Clone, Copy, Debug)]
+#[allow(dead_code)]
 enum Ctx {
 	Read(u32),
 	Process,
@@ -1697,7 +1698,8 @@ impl World {
 			"messages_delivered": self.msgs_delivered,
 			"first_actions": self.sample,
 		}));
-		if !self.out.violations.is_empty() || !self.out.harness_errors.is_empty() {
+		let keep = std::env::var("TRANSPORTSIM_KEEP_REPLAY").is_ok();
+		if keep || !self.out.violations.is_empty() || !self.out.harness_errors.is_empty() {
 			self.out.replay = Some(json!({
 				"sim": "transportsim",
 				"profile": self.cfg.profile,
